@@ -384,6 +384,12 @@ class Table(JupyterMixin):
                 *cell_renderables,
                 *[None] * (len(columns) - len(cell_renderables)),
             ]
+        for renderable in cell_renderables:
+            # check every cell first: a row is added whole or not at all
+            if renderable is not None and not is_renderable(renderable):
+                raise errors.NotRenderableError(
+                    f"unable to render {type(renderable).__name__}; a string or other renderable object is required"
+                )
         for index, renderable in enumerate(cell_renderables):
             if index == len(columns):
                 column = Column(_index=index)
